@@ -11,7 +11,7 @@ META = {
     "level_note": "TLC checks the batch definitions of the tear sheet (win-rate / profit-factor conventions, order-freedom, "
                   "per-key isolation, accumulators+calculators = batch) on every bounded history and emits every history "
                   "with the exact summary after every event; they are replayed into TearSheetGenerator, "
-                  "TradingSummaryGenerator and, as fills, into a real Engine whose trading summary is generated.",
+                  "TradingSummaryGenerator and, as fills, into a real Engine whose trading summary is generated. Trusted: TLC, spec/Rational.tla, the projection functions in harness/src/stats_driver.rs (bins c16/c17/c18), the assumptions listed in the evidence file.",
     "technique": "TLC exhaustive + simulation (Pattern B: exact rationals replayed into the implementation)",
 }
 ASSUMPTIONS = [
@@ -69,7 +69,9 @@ def corrupt(scn):
 def check(ctx):
     ctx.assumptions += ASSUMPTIONS
     ctx.build("c16")
-    ctx.tlc_mc("MC_" + MODULE, "MC_Stats_C16.cfg" if ctx.quick else "MC_Stats_C16_thorough.cfg", timeout=2400)
+    # (-coverage makes TLC several times slower here: vacuity is checked on the small configuration)
+    ctx.tlc_actions("MC_" + MODULE, "MC_Stats_C16_small.cfg", ["AddClosedAny", "AddBalanceAny", "GenerateAny"])
+    ctx.tlc_mc("MC_" + MODULE, "MC_Stats_C16.cfg" if ctx.quick else "MC_Stats_C16_thorough.cfg", timeout=2400, coverage=False)
     gens = [("enumerated", "GenT_Stats_C16.cfg", None)]
     if not ctx.quick:
         gens.append(("enumerated-long", "GenT_Stats_C16_thorough.cfg", None))
